@@ -463,7 +463,6 @@ func execSess(op string) string {
 	}
 }
 
-
 // ---------- generation ----------
 
 var (
